@@ -28,7 +28,7 @@ try:
                 d = tempfile.mkdtemp(prefix='seeddemo.', dir='/var/tmp')
                 env = dict(os.environ, VERIF_REPO=repo, VERIF_KEEP='1')
                 code = ("import sys; sys.path.insert(0, %r); import build; d=%r; lib=build.native_lib(d, opt='-O2'); "
-                        "build.sh(['gcc','-O1','-g']+build.RELEASE_FLAGS+build.incflags(d)+['-o', d+'/demo', %r, lib, '-lm','-lpthread'])" % (V + '/lib', d, demo))
+                        "build.sh(['gcc','-O1','-g','-D_DEFAULT_SOURCE']+build.RELEASE_FLAGS+build.incflags(d)+['-o', d+'/demo', %r, lib, '-lm','-lpthread'])" % (V + '/lib', d, demo))
                 b = subprocess.run(['python3-vt', '-c', code], env=env, capture_output=True, text=True)
                 if b.returncode != 0:
                     res['demo_' + label] = 'build failed: ' + (b.stderr or b.stdout)[-400:]
